@@ -419,8 +419,13 @@ func (s *session) continueUntilWait(sprint *sprint, currentRun flows.Run, node f
 			numNewSteps++
 
 			if numNewSteps > s.engine.Options().MaxStepsPerSprint {
-				// we've hit the step limit - usually a sign of a loop
-				failRun(sprint, currentRun, step, fmt.Errorf("reached maximum number of steps per sprint (%d)", s.engine.Options().MaxStepsPerSprint))
+				// we've hit the step limit - usually a sign of a loop.. the last step we created might belong to a
+				// different run (e.g. a child that has just completed) so report against this run's own last step
+				var lastStep flows.Step
+				if len(currentRun.Path()) > 0 {
+					lastStep = currentRun.Path()[len(currentRun.Path())-1]
+				}
+				failRun(sprint, currentRun, lastStep, fmt.Errorf("reached maximum number of steps per sprint (%d)", s.engine.Options().MaxStepsPerSprint))
 			} else {
 				node = currentRun.Flow().GetNode(destination)
 				if node == nil {
